@@ -512,6 +512,10 @@ func genAuthPlan(r *rand.Rand, tier, focus string) *vfPlan {
 			add(vfStep{Op: "mintsession", Sess: "adm", User: pick(r, []string{"root", "autoadmin"}), N: int64(AuthTypeU2F | AuthTypePassword)})
 			add(vfStep{Op: "rolecert", Sess: "adm", A: pick(r, []string{"auto1", "auto2"}), L: []string{pick(r, vfNetChoices)}, B: pick(r, []string{"user_p256_3", "user_rsa2048_4"}),
 				D: pick(r, []string{"", "24h", "1080h", "1080h0m1s", "1092h", "1103h59m59s", "1104h", "2000h", "-1h", "9223372036s", "0s", "1ns", "10X"})})
+		case x < 85 && focus == "C03":
+			// an automation certificate from the operator's own CA, longer-lived than keymaster's, is refreshed
+			add(vfStep{Op: "opcert", User: pick(r, []string{"auto1", "auto2"}), D: pick(r, []string{"2160h", "8760h", "240h"})})
+			add(vfStep{Op: "rolerefresh", C: "cert:last:ipcert", Target: pick(r, []string{"10.20.30.40", "10.20.0.1", "203.0.113.9"}), B: "user_p256_2"})
 		case x < 90:
 			add(vfStep{Op: "advance", D: pick(r, advances)})
 		case x < 93:
